@@ -348,8 +348,9 @@ func runCustom(c *vh.Ctx, kind string, cu custom) {
 		}
 	} else {
 		c.Count("build-error/" + kind)
-		if cu.wf && cu.mustErr == "" && !strings.Contains(berr.Error(), "too large") {
-			c.Fail("build-error/"+cu.key, "a spec within the property's limits was refused", in, berr.Error(), "ClientHello")
+		if cu.wf && cu.mustErr == "" {
+			// inside the precondition and, by construction, within every length field (C02_encodes_when_fits)
+			c.Fail("refused/"+cu.key, "a spec within the property's limits whose sizes fit every length field was refused", in, berr.Error(), "ClientHello")
 		}
 	}
 	// the extension objects as MarshalClientHello saw them
@@ -751,7 +752,7 @@ func corpus(c *vh.Ctx) []custom {
 	}
 	// two padding extensions: refused
 	cu = mk("two-paddings", "two padding extensions", func(cu *custom) []tls.TLSExtension {
-		return []tls.TLSExtension{&tls.UtlsPaddingExtension{GetPaddingLen: tls.BoringPaddingStyle}, &tls.SNIExtension{}, &tls.UtlsPaddingExtension{GetPaddingLen: tls.BoringPaddingStyle}}
+		return []tls.TLSExtension{&tls.UtlsPaddingExtension{WillPad: true, PaddingLen: 5}, &tls.SNIExtension{}, &tls.UtlsPaddingExtension{WillPad: true, PaddingLen: 9}}
 	})
 	cu.mustErr, cu.cause = "two padding extensions", "duplicate-extension/21"
 	out = append(out, cu)
